@@ -378,3 +378,39 @@ FUNCS["emptyprefix"] = (emptyprefix, "si")
 FUNCS["cmpnone"] = (cmpnone, "ii")
 FUNCS["tiny"] = (tiny, "ii")
 FUNCS["displays"] = (displays, "ii")
+
+
+class _Three:
+    def __enter__(self):
+        return 3
+
+    def __exit__(self, *a):
+        return False
+
+
+def tryends(a, b):
+    # a comparison in the same basic block as the end of a protected range (TryEnd pseudo-instruction)
+    r = 0
+    try:
+        x = 6 // (a + 1)
+    except ZeroDivisionError:
+        raise
+    if x < b:
+        r += 1
+    try:
+        for i in range(a):
+            x += i
+    finally:
+        r += 2
+    if a < x:
+        r += 4
+    with _Three() as c:
+        y = c + b
+    if y <= a:
+        r += 8
+    try:
+        y = a
+    finally:
+        if y:
+            r += 16
+    return r
